@@ -255,10 +255,13 @@ delivered a range it delivers every sub-range: any deterministic source that fai
 touching some set of bad bytes) then, once a range read has succeeded, every later range read inside that range
 succeeds with the file's bytes — whatever calls were made before, in between and whatever the source refuses
 elsewhere: the cache never turns a failure of the source on *other* bytes into a failure of bytes it has
-delivered before. (`F.length + chunk ≤ 2^64`: for a file within one chunk of `2^64` the saturating
-`round_up_to_multiple` plans a read up to EOF, past the boundary where the earlier buffer ended.) -/
+delivered before. The hypothesis `chunk ∣ 2^64 ∨ |F| + chunk ≤ 2^64` holds for the real chunk size
+(`C13_real_chunk_divides`), so for the code as it is this covers every file below `2^64` bytes; for a chunk
+size that does not divide `2^64` and a file within one chunk of `2^64` the saturating `round_up_to_multiple`
+plans a read up to EOF, past the boundary where the earlier buffer ended. -/
 theorem C13_total_after_success (c : Cfg) (F : List UInt8) (hc : 0 < c.chunk)
-    (hsz2 : F.length + c.chunk ≤ U64) (hf : Faithful F c.src) (hmono : SrcMono c.src)
+    (hsz : F.length < U64) (hch : c.chunk ∣ U64 ∨ F.length + c.chunk ≤ U64) (hf : Faithful F c.src)
+    (hmono : SrcMono c.src)
     (ops₁ ops₂ : List Op) (o n : Nat) (bs : List UInt8)
     (hprev : (readBytesAt c (run c F.length ops₁) o n).2 = .ok bs)
     (o' n' : Nat) (h1 : o ≤ o') (h2 : o' + n' ≤ o + n) :
@@ -266,8 +269,8 @@ theorem C13_total_after_success (c : Cfg) (F : List UInt8) (hc : 0 < c.chunk)
   by_cases hn' : n' = 0
   · subst hn'; simp [readBytesAt, slice_zero]
   have hsz : F.length < U64 := by omega
-  obtain ⟨i1, j1, _⟩ := run_inv2 c F hc hsz2 hf hmono ops₁ _ (inv_init F) (inv2_init c F)
-  have hstep := step_cover c F hc hsz2 hmono _ i1 j1 (.read o n)
+  obtain ⟨i1, j1, _⟩ := run_inv2 c F hc hsz hch hf hmono ops₁ _ (inv_init F) (inv2_init c F)
+  have hstep := step_cover c F hc hsz hch hmono _ i1 j1 (.read o n)
   have i2 := (step_spec c F hc hsz hf _ i1 (.read o n)).1
   obtain ⟨j2, _, hcov⟩ := hstep
   have hrun : run c F.length (ops₁ ++ .read o n :: ops₂) =
@@ -281,10 +284,13 @@ theorem C13_total_after_success (c : Cfg) (F : List UInt8) (hc : 0 < c.chunk)
     rcases hcov' with h0 | h
     · omega
     · exact h
-  obtain ⟨i3, j3, mono⟩ := run_inv2 c F hc hsz2 hf hmono ops₂ _ i2 j2
+  obtain ⟨i3, j3, mono⟩ := run_inv2 c F hc hsz hch hf hmono ops₂ _ i2 j2
   rw [hrun]
   obtain ⟨idx, br, hbr, c1, c2⟩ := mono _ _ hcov2
-  exact readBytesAt_covered c F hc hsz2 hf hmono _ i3 j3 o' n' (by omega) ⟨idx, br, hbr, by omega, by omega⟩
+  exact readBytesAt_covered c F hc hsz hch hf hmono _ i3 j3 o' n' (by omega) ⟨idx, br, hbr, by omega, by omega⟩
+
+/-- the chunk size of the code (`CHUNK_SIZE = 32 * 1024`, cache.rs:11) divides `2^64` -/
+theorem C13_real_chunk_divides : realChunk ∣ U64 := by decide
 
 /-- the harness's byte source (fails exactly on the requests touching `[badLo, badHi)` or reaching past the
 end) is monotone, so `C13_total_after_success` applies to the model runs that are compared with the code -/
@@ -488,6 +494,29 @@ theorem C13_shared_subrange_overflow_panics (c : Cfg) (st : St) (base : Option (
     vstep c st (.vread base subs o n) = (st, .panic) := by
   simp only [vstep]
   rw [build_overflow _ subs hne (by rw [viewBase_start]; exact hov)]
+
+/-- **A call of the shared.rs layer is its cache-level call plus local wrapper code.** Unless the wrapper
+refuses it before it reaches the cache (`v.refused`: shifted offset beyond `u64`, inverted range), a view call
+is exactly `CC.step` on the cache-level call `v.under` — same new state — with the outcome passed through
+`v.post` (`Err(())` for the `ReadRef` impls, unchanged for `read_entire_data`). The wrapper code touches no
+shared state: at lock granularity a view call has the atomic sections of `v.under`. -/
+theorem C13_shared_reduces (c : Cfg) (st : St) (v : VOp) (hstart : v.startOk) :
+    vstep c st v =
+      if v.refused then (st, .err .discarded)
+      else ((step c st (v.under st.fileLen)).1, v.post (step c st (v.under st.fileLen)).2) :=
+  vstep_reduces c st v hstart
+
+/-- Concurrent readers going through the shared.rs layer: by `C13_shared_reduces` a thread making the view
+call `v` executes the sections of `v.under` and hands `v.post out` to its caller; under every schedule, with any
+other threads making any calls, that is `CC.vspec F v` — what the file alone dictates for the view call. -/
+theorem C13_interleaving_views (c : Cfg) (F : List UInt8) (hc : 0 < c.chunk) (hsz : F.length < U64)
+    (hf : Faithful F c.src) (hok : SourceOk F c.src) (progs : List (List Op)) (sched : List Nat)
+    (k : Nat) (t : Thread) (ht : (runSched c (Sys.init F.length progs) sched).threads[k]? = some t)
+    (v : VOp) (out : Out (List UInt8)) (hm : (v.under F.length, out) ∈ t.done) (hnr : v.refused = false) :
+    v.post out = vspec F v := by
+  have h := (C13_interleaving_source_ok c F hc hsz hf hok progs sched k t ht _ out hm).1
+  rw [vspec_reduces F c.src hsz v, hnr, h]
+  simp
 
 /-- Histories of cache-level calls only are a special case of mixed histories (so the theorems of the first
 part are instances of `C13_shared_step`). -/
